@@ -137,6 +137,49 @@ var c12Lit = core.Mon(c12, "literal-value", func(w *core.W, c *LitCase) {
 		w.Violation("literal-value", "C12/wrong-value", c, want.String(), got.String(), fmt.Sprintf("literal %q evaluates to %s", c.Lit, d.String()))
 		return
 	}
+	// standing as a condition or as the operand of a selection, the literal counts by its value (zero in any spelling is falsy)
+	if want.IsZero() || core.Hash64(c.Lit)%4 == 1 {
+		csrc := "[" + c.Lit + " ? 't' : 'f', !!" + c.Lit + ", (" + c.Lit + "?1:2), " + c.Lit + " || 'd', " + c.Lit + " && 'd', [" + c.Lit + " ? 't' : 'f'], fsel(" + c.Lit + " ? 't' : 'f')]"
+		cv, cerr, cp, cpv := evalArray1("["+csrc+"]", map[string]interface{}{"fsel": func(x interface{}) (interface{}, error) { return x, nil }})
+		w.Count("literal_as_condition")
+		wantSel := `[["t", true, 1, NUM, "d", ["t"], "t"]]`
+		if want.IsZero() {
+			wantSel = `[["f", false, 2, "d", NUM, ["f"], "f"]]`
+		}
+		got := show(cv)
+		ok := !cp && cerr == nil
+		if ok {
+			outer, _ := cv.([]interface{})
+			ok = len(outer) == 1
+			if ok {
+				a, _ := outer[0].([]interface{})
+				ok = len(a) == 7
+				if ok {
+					tf := "t"
+					if want.IsZero() {
+						tf = "f"
+					}
+					in, _ := a[5].([]interface{})
+					ok = a[0] == tf && a[1] == !want.IsZero() && len(in) == 1 && in[0] == tf && a[6] == tf
+					if two, isDec := a[2].(*decimal.Big); ok && isDec {
+						n, _ := two.Int64()
+						ok = (n == 1) == !want.IsZero()
+					} else {
+						ok = false
+					}
+					if ok && want.IsZero() {
+						ok = a[3] == "d"
+					} else if ok {
+						ok = a[4] == "d"
+					}
+				}
+			}
+		}
+		if !ok {
+			w.Violation("literal-value", "C12/literal-as-condition", c, wantSel, fmt.Sprint(got, " ", cerr, cpv), fmt.Sprintf("literal %q as a condition: %s", c.Lit, csrc))
+			return
+		}
+	}
 	// behind the one keyword an operand may follow: a number whatever is written in front (`typeof.5` is `typeof .5`)
 	if c.Lit[0] == '.' || core.Hash64(c.Lit)%4 == 0 {
 		glue := " "
